@@ -108,6 +108,9 @@ var evEpoch = time.Date(2024, 2, 29, 12, 0, 0, 0, time.UTC)
 // consecutive events of one task deliberately share wall-clock seconds, as
 // they do under load: per-second caches only go wrong on a hit.
 func evTime(k evKey) time.Time {
+	if k.ctxMode&16 != 0 {
+		return time.Time{} // whatever the hook returns is the record's time - also the zero time
+	}
 	return evEpoch.Add(time.Duration(k.task%2)*time.Hour + time.Duration(k.seq/2)*time.Second + time.Duration((k.task*37+k.seq*11)%1000)*time.Millisecond)
 }
 
